@@ -37,8 +37,7 @@ ObjCfg == [fmt : {"rst", "epy"}, xref : BOOLEAN, field : BOOLEAN, nerr : 0..2, e
 \* a fatal epytext error turns the whole docstring into plain text: nothing else in it is markup any more
 Realisable(c) == c.fmt = "epy" => (c.nerr <= 1 /\ (c.nerr = 1 => ~c.xref /\ ~c.field))
 Clean(c) == ~c.xref /\ ~c.field /\ c.nerr = 0 /\ ~c.expr /\ ~c.regex
-Menu == {c \in ObjCfg : Realisable(c) /\ c.fmt = "rst" /\ (Clean(c) \/ (c.nerr = 1 /\ ~c.xref /\ ~c.field /\ ~c.expr /\ ~c.regex)
-                                                              \/ (c.xref /\ ~c.field /\ c.nerr = 0 /\ ~c.expr /\ ~c.regex))}
+Menu == {c \in ObjCfg : c.fmt = "rst" /\ ~c.xref /\ ~c.field /\ ~c.expr /\ ~c.regex /\ c.nerr <= 1}
 Events(o, c) == (IF c.xref THEN {[o |-> o, kind |-> "xref", n |-> 1]} ELSE {})
            \cup (IF c.field THEN {[o |-> o, kind |-> "field", n |-> 1]} ELSE {})
            \cup (IF c.nerr > 0 THEN {[o |-> o, kind |-> "parse", n |-> c.nerr]} ELSE {})
